@@ -126,7 +126,7 @@ def check(ctx):
                 if c2 is hashed:
                     continue
                 for k in ast.walk(c2):
-                    if isinstance(k, ast.Call) and call_name(k) == "map" and len(k.args) == 2 and unparse(k.args[0]) == "len" and src is not None and same(k.args[1], src):
+                    if isinstance(k, ast.Call) and call_name(k) == "map" and len(k.args) == 2 and eqv(k.args[0], "len") and src is not None and same(k.args[1], src):
                         ok = True
                     if isinstance(k, ast.GeneratorExp) and Pat("len(M_e)").match(k.elt) is not None and src is not None and same(k.generators[0].iter, src):
                         ok = True
